@@ -4,6 +4,7 @@ CONSTANTS
   MaxCmds = 6
   CountOwnKeysOnly = TRUE
   CrossAppends = FALSE
+  WriteOnlyNew = FALSE
 VIEW view
 INVARIANTS PlainSignSelfVerifies EditsClearSigs NoStaleEntries
 CHECK_DEADLOCK FALSE
